@@ -3,7 +3,24 @@
 // C17: algebraic laws of exact arithmetic where defined (lemmas over the REAL operators).
 namespace vfspec {
 using namespace fixedmath;
+// a*n is a added to itself n times: a*0 == 0, a*1 == a and a*(n+1) == a*n + a (induction step), for every integral type
+template<typename T> constexpr bool lem_mul_step_t(fixed_t a, T n)
+  {
+  if( n == std::numeric_limits<T>::max() ) return true;
+  fixed_t p = a * n, q = a * T(n + 1);
+  if( isnan(p) || isnan(q) ) return true;
+  fixed_t s = p + a;
+  return isnan(s) || s == q;
+  }
+template<typename T> constexpr bool lem_mul_div_t(fixed_t a, T n)
+  { if( n == 0 ) return true; fixed_t p = a * n; if( isnan(p) ) return true; fixed_t d = p / n; return isnan(d) || d == a; }
 extern "C" {
+#define VF_C17(T, tag) \
+  constexpr bool lem_c17_mul_step_##tag(fixed_t a, T n) { return lem_mul_step_t<T>(a, n); } \
+  constexpr bool lem_c17_mul_div_##tag(fixed_t a, T n) { return lem_mul_div_t<T>(a, n); }
+VF_C17(int8_t, a) VF_C17(int16_t, s) VF_C17(int32_t, i) VF_C17(int64_t, l)
+VF_C17(uint8_t, h) VF_C17(uint16_t, t) VF_C17(uint32_t, j) VF_C17(uint64_t, m)
+#undef VF_C17
 constexpr bool pre_c17_3(fixed_t a, fixed_t b, fixed_t c) { return vf_finite(a) && vf_finite(b) && vf_finite(c); }
 constexpr bool pre_c17_small(fixed_t a) { return a.v > -(1ll<<47) && a.v < (1ll<<47); }     // |a| < 2^31
 constexpr bool pre_c17_n(fixed_t a, int64_t) { return vf_finite(a); }
@@ -25,17 +42,6 @@ constexpr bool lem_c17_assoc(fixed_t a, fixed_t b, fixed_t c)
   fixed_t l = ab + c, r = a + bc;
   return isnan(l) || isnan(r) || l == r;
   }
-// a*n is a added to itself n times: a*0 == 0, a*1 == a and a*(n+1) == a*n + a (induction step), both signs
-constexpr bool lem_c17_mul_step(fixed_t a, int64_t n)
-  {
-  if( n == 0x7FFFFFFFFFFFFFFFll ) return true;
-  fixed_t p = a * n, q = a * (n + 1);
-  if( isnan(p) || isnan(q) ) return true;
-  fixed_t s = p + a;
-  return isnan(s) || s == q;
-  }
-constexpr bool lem_c17_mul_div(fixed_t a, int64_t n)
-  { if( n == 0 ) return true; fixed_t p = a * n; if( isnan(p) ) return true; fixed_t d = p / n; return isnan(d) || d == a; }
 constexpr bool lem_c17_add_mono(fixed_t a, fixed_t b, fixed_t c)
   { if( !(a < b) ) return true; fixed_t l = a + c, r = b + c; return isnan(l) || isnan(r) || l <= r; }
 }
